@@ -79,6 +79,29 @@ Theorem multinet_step_equals_standalone :
 Proof. intros. eapply multinet_step_lemma; eauto. Qed.
 Print Assumptions multinet_step_equals_standalone.
 
+(* 3c. what is assumed of pandapower: a loop shaped like pandapower's run_time_step, with its collaborators as
+   parameters satisfying the three stated laws (ConstControl writes profile[t]*scale into its cells and nothing
+   else; the registered run function returns spec of the description and leaves it unchanged - pipeflow by the
+   wiring table, spec by C12; the OutputWriter appends one row per saved step), logs what the model logs and ends
+   like it - except that when it raises, the failing step is not handed to the output writer *)
+Theorem pandapower_loop_is_the_model :
+  forall (C V R : Type) (ceqb : C -> C -> bool) (spec : desc C V -> option R),
+    (forall u u', (forall c, u c = u' c) -> spec u = spec u') ->
+  forall cells profile control_time_step run_function ow_save,
+    (forall t u c, control_time_step t u c = write_step C V ceqb cells profile t u c) ->
+    (forall u, fst (run_function u) = spec u /\ forall c, snd (run_function u) c = u c) ->
+    (forall t r log, ow_save t r log = app log [(t, r)]) ->
+  forall cod steps u0,
+    logged C V R (pp_loop C V R control_time_step run_function ow_save cod steps u0 []) =
+      drop_failed R (logged C V R (run_timeseries C V R ceqb spec cells profile cod steps u0))
+                    (outcome C V R (run_timeseries C V R ceqb spec cells profile cod steps u0)) /\
+    outcome C V R (pp_loop C V R control_time_step run_function ow_save cod steps u0 []) =
+      outcome C V R (run_timeseries C V R ceqb spec cells profile cod steps u0).
+Proof.
+  intros. unfold run_timeseries. eapply pandapower_loop_lemma; eauto.
+Qed.
+Print Assumptions pandapower_loop_is_the_model.
+
 (* 4. (includes: the caller's solver options **kwargs are forwarded to every calculation of a step - run_loop ->
    run_time_step, multinet run_control -> initial run and recalculation after the controllers) *)
 (* 4. the loops register pipeflow as run function, PipeflowNotConverged is the first recognised error
@@ -117,4 +140,34 @@ Example instance :
     = [(3, Some 68); (2, None); (1, Some 28)] /\
   outcome nat nat nat (run_timeseries nat nat nat Nat.eqb spec [0; 1] profile false [3; 2; 1] (fun _ => 7))
     = Raised 2.
+Proof. vm_compute. split; reflexivity. Qed.
+
+(* non-vacuity of the multi-energy hypotheses: cells 0,1 driven by the profile, cell 2 derived from cell 0
+   (a coupling: c2 := 2 * c0), cell 3 static *)
+Example multinet_instance :
+  let couple := fun (u : desc nat nat) c => if Nat.eqb c 2 then 2 * u 0 else u c in
+  let spec := fun u : desc nat nat => if Nat.eqb (u 0) 99 then None else Some (u 0 + u 1 + u 2 + u 3) in
+  let profile := fun t c => if Nat.eqb t 2 then 99 else 10 * t + c in
+  (forall u c, ~ In c [2] -> couple u c = u c) /\
+  (forall u u' c, (forall r, In r [0] -> u r = u' r) -> In c [2] -> couple u c = couple u' c) /\
+  (forall c, In c [0] -> ~ In c [2]) /\ (forall c, In c [0; 1] -> ~ In c [2]) /\
+  logged nat nat nat (mloop nat nat nat Nat.eqb spec [0; 1] couple profile true [3; 2; 1] (fun _ => 7) [])
+    = [(3, Some 128); (2, None); (1, Some 48)].
+Proof.
+  cbv zeta. repeat split.
+  - intros u c H. destruct (Nat.eqb c 2) eqn:E; auto. apply Nat.eqb_eq in E. subst. exfalso. apply H. left. auto.
+  - intros u u' c H [Hc|[]]. subst. simpl. rewrite (H 0); auto. left. auto.
+  - intros c [H|[]] [G|[]]. subst. discriminate.
+  - intros c [H|[H|[]]] [G|[]]; subst; discriminate.
+Qed.
+
+(* non-vacuity of the oracle laws: an instance of the three collaborators that satisfies them *)
+Example oracle_instance :
+  let spec := fun u : desc nat nat => if Nat.eqb (u 0) 99 then None else Some (u 0 + u 1) in
+  let profile := fun t c => if Nat.eqb t 2 then 99 else 10 * t + c in
+  let cts := fun t u => write_step nat nat Nat.eqb [0; 1] profile t u in
+  let runf := fun u : desc nat nat => (spec u, u) in
+  let ows := fun t (r : option nat) (log : list (nat * option nat)) => app log [(t, r)] in
+  logged nat nat nat (pp_loop nat nat nat cts runf ows false [3; 2; 1] (fun _ => 7) []) = [(3, Some 61)] /\
+  outcome nat nat nat (pp_loop nat nat nat cts runf ows false [3; 2; 1] (fun _ => 7) []) = Raised 2.
 Proof. vm_compute. split; reflexivity. Qed.
